@@ -354,7 +354,17 @@ func textMutants(r *Rng, s Seed, other []byte, nRandom int, truncEvery int) []Mu
 			if len(m) == 0 {
 				break
 			}
-			switch r.Intn(9) {
+			switch r.Intn(10) {
+			case 9: // a run of bytes that are not UTF-8
+				p := r.Intn(len(m) + 1)
+				k := Pick(r, []int{1, 2, 4, 5, 6, 8, 13, 40})
+				run := bytes.Repeat([]byte{Pick(r, []byte{0xe9, 0x80, 0xc0, 0xff, 0xf8, 0xbf})}, k)
+				ow := 0
+				if r.Bool() && p+k <= len(m) {
+					ow = k
+				}
+				m = replaceAt(m, p, ow, run)
+				what += fmt.Sprintf("badutf8@%d*%d,", p, k)
 			case 0, 1: // replace one char by a token
 				p := r.Intn(len(m))
 				t := Pick(r, textTokens)
@@ -418,6 +428,24 @@ func textMutants(r *Rng, s Seed, other []byte, nRandom int, truncEvery int) []Mu
 func stressText() []Seed {
 	rep := func(s string, n int) string { return string(bytes.Repeat([]byte(s), n)) }
 	var out []Seed
+	// string tokens holding runs of bytes that are not UTF-8, before / between / after
+	// well-formed text of various lengths (decoders that substitute U+FFFD grow the text)
+	for _, k := range []int{1, 4, 5, 6, 8, 16, 64} {
+		for _, n := range []int{0, 8, 60, 300} {
+			bad := string(bytes.Repeat([]byte{0xe9}, k))
+			txt := rep("the quick brown fox ", n/20+1)[:n]
+			for vi, body := range []string{bad + txt, txt + bad, txt[:n/2] + bad + txt[n/2:]} {
+				tag := fmt.Sprintf("badutf8-%d-%d-%d", k, n, vi)
+				out = append(out,
+					Seed{Name: "stress-json-" + tag, Format: "json", Data: []byte("{\"msg\":\"" + body + "\",\"" + body + "\":1}\n")},
+					Seed{Name: "stress-zson-" + tag, Format: "zson", Data: []byte("{msg:\"" + body + "\",\"" + body + "\":1}\n")},
+					Seed{Name: "stress-csv-" + tag, Format: "csv", Data: []byte("a," + body + "\n\"" + body + "\",1\n")},
+					Seed{Name: "stress-zjson-" + tag, Format: "zjson", Data: []byte(`{"type":{"kind":"record","id":30,"fields":[{"name":"` + body + `","type":{"kind":"primitive","name":"string"}}]},"value":["` + body + `"]}` + "\n")},
+					Seed{Name: "stress-zeek-" + tag, Format: "zeek", Data: []byte("#separator \\x09\n#fields\ta\tb\n#types\tstring\tstring\n" + body + "\t" + body + "\n")},
+				)
+			}
+		}
+	}
 	for _, n := range []int{100, 1500} {
 		out = append(out,
 			Seed{Name: fmt.Sprintf("stress-zson-arr%d", n), Format: "zson", Data: []byte(rep("[", n) + rep("]", n))},
